@@ -1278,3 +1278,120 @@ def r_embedded_region_finalised(ck, P, rid='C20-R8'):
                 ck.violation(R, f.name, 'finalisation of %s' % fld, '%s finalises %s only when %s holds; the constructor sets the region up unconditionally and resetting the clip merely clears the flag, so the rectangle list of a clip that was set and later reset is never released' % (f.name, fld.split('.')[-1], ' / '.join(q.split('.')[-1] for q in fl)), c.loc())
             else:
                 ck.ok(R, '%s finalises %s unconditionally' % (f.name, fld))
+
+
+def r13_boolean_index_arguments_are_truth_values(ck, P, rid='C14-R13'):
+    """Representation typestate: pixman_bool_t properties are stored as the caller passed them (pixman_image_set_component_alpha (img, 2) is
+    'on'), and the flag computation only asks for non-zero.  The combiner lookup, however, builds a table index from its boolean
+    parameters ((narrow << 1) | component_alpha): what reaches it must be a truth value, 0 or 1, not the stored property."""
+    R = ck.rule(rid, 'every argument passed for a pixman_bool_t parameter that _pixman_implementation_lookup_combiner combines into its switch index is a truth value at the call site: the widened result of a comparison or logical operator, a constant 0 / 1, or a merge of such - never a value loaded from an image property as it is: a mask switched on with 2 or -1 would select the unified combiner, the 8-bit combiner for float scanlines, or none at all, while flags and fast paths treat it as component alpha', floor=2)
+    g = P.fn('_pixman_implementation_lookup_combiner', required=False)
+    if g is None:
+        raise AnalysisBroken('%s: _pixman_implementation_lookup_combiner not found' % rid)
+    # parameters that take part in an `or` / `shl` feeding a switch
+    idx = set()
+    for x in g.insts():
+        if x.op == 'switch':
+            work = [x.a[0]]; seen = set()
+            while work:
+                o = work.pop()
+                if o[0] == 'a':
+                    idx.add(o[1]); continue
+                y = g.v(o) if o[0] == 'v' else None
+                if y is None or y.i in seen:
+                    continue
+                seen.add(y.i)
+                if y.op in ('or', 'shl', 'zext', 'sext', 'trunc', 'and', 'add'):
+                    work.extend(y.a)
+    idx = {i for i in idx if g.params[i][1] == 'i32' and (g.params[i][0] or '') not in ('op',)}
+    if not idx:
+        raise AnalysisBroken('%s: no parameter of the combiner lookup feeds its switch index' % rid)
+    def truth(f, o, d=0, seen=None):
+        seen = set() if seen is None else seen
+        if o[0] == 'c':
+            return int(o[1]) in (0, 1)
+        y = f.v(o) if o[0] == 'v' else None
+        if y is None or d > 12:
+            return False
+        if y.i in seen:
+            return True
+        seen.add(y.i)
+        if y.op == 'zext':
+            z = f.v(y.a[0])
+            return z is not None and z.ty == 'i1'
+        if y.op == 'and' and any(a[0] == 'c' and int(a[1]) == 1 for a in y.a):
+            return True
+        if y.op == 'phi':
+            return all(truth(f, a, d + 1, seen) for a in y.a)
+        if y.op == 'select':
+            return all(truth(f, a, d + 1, seen) for a in y.a[1:])
+        return False
+    n = 0
+    for f in P.functions():
+        for c in f.calls():
+            if P.resolve(f, c.callee) is not g if isinstance(c.callee, str) else True:
+                continue
+            for i in sorted(idx):
+                if i >= len(c.a):
+                    continue
+                n += 1; ck.saw(f)
+                where = '%s: argument %s of the combiner lookup at %s' % (f.name, g.params[i][0], c.loc())
+                if truth(f, c.a[i]):
+                    ck.ok(R, where, 'truth value')
+                else:
+                    ck.violation(R, f.name, 'combiner lookup argument %s' % g.params[i][0], '%s passes for %s a value that is not normalised to 0 / 1 (%s): the lookup forms its switch index by or-ing it in, so a property that was switched on with a value other than 1 selects the wrong combiner - or none - in the general path, while the flags and the fast paths, which only test for non-zero, treat the image as having the property' % (f.name, g.params[i][0], c.loc()), c.loc())
+    if n == 0:
+        raise AnalysisBroken('%s: no call of the combiner lookup found' % rid)
+
+
+def r20_11_half_built_image_is_freed_raw(ck, P, rid='C20-R10'):
+    """Typestate of a constructor: between the raw allocation and the success of the last fallible initialiser the image is not yet an
+    image - the fields that fini releases (gradient.stops, bits.free_me, ...) may never have been written.  On the failure path of that
+    initialiser the block is given back with free (), not through unref / fini, which would release what those fields happen to hold."""
+    R = ck.rule(rid, 'in every constructor that calls a fallible initialiser on a freshly allocated image (an internal function taking a part of the image and returning a status), the path taken when the initialiser fails reaches no call of pixman_image_unref or the finaliser before it returns: _pixman_init_gradient returns before it has written gradient.stops when n_stops <= 0, and the finaliser of a gradient frees stops - 1 of whatever the block contained (the stop array of a gradient destroyed earlier: a double free)', floor=3)
+    fini = P.fn('_pixman_image_fini', required=False)
+    n = 0
+    for f in common.public_api(P):
+        allocs = [c for c in f.calls() if isinstance(c.callee, str) and c.callee in ('_pixman_image_allocate',)]
+        if not allocs:
+            continue
+        for c in f.calls():
+            g = P.resolve(f, c.callee) if isinstance(c.callee, str) else None
+            if g is None or g.exported or not g.type.startswith('i32 ') or g.name.startswith('_pixman_image_allocate'):
+                continue
+            # the argument derives from the allocated image
+            if not any(a[0] == 'v' and any(r == ('call', allocs[0].i) or (r[0] == 'call') for r in common.roots(f, a)) for a in c.a):
+                continue
+            # branch on the result
+            brs = [u for u in f.insts() if u.op == 'br' and u.a and f.cond(u.a[0])[0] is not None and any(list(o) == ['v', c.i] for o in (f.cond(u.a[0])[2] or []))]
+            if not brs:
+                continue
+            t = brs[0]
+            cc, p, ops = f.cond(t.a[0])
+            # failing side: result == 0
+            if cc.op == 'icmp':
+                k = [int(o[1]) for o in ops if o[0] == 'c']
+                if not k or k[0] != 0:
+                    continue
+                fail = t.d['succ'][0] if p == 'eq' else t.d['succ'][1]
+            else:
+                fail = t.d['succ'][1] if p == 'is' else t.d['succ'][0]
+            n += 1; ck.saw(f)
+            bad = None
+            seen = set(); work = [fail]
+            while work and bad is None:
+                b = work.pop()
+                if b in seen:
+                    continue
+                seen.add(b)
+                for x in f.blocks[b].insts:
+                    if x.op == 'call' and isinstance(x.callee, str) and (x.callee in ('pixman_image_unref', '_pixman_image_fini')):
+                        bad = x; break
+                work.extend(f.blocks[b].succ)
+            where = '%s: failure of %s at %s' % (f.name, g.name, c.loc())
+            if bad is None:
+                ck.ok(R, where, 'released raw')
+            else:
+                ck.violation(R, f.name, 'finaliser on a half-built image', '%s releases the image through %s (%s) when %s has failed: the fields that the finaliser frees were never written on that path (the initialiser returns before storing them), so it frees what the fresh block happened to contain - a pointer left there by an image destroyed earlier is freed a second time' % (f.name, bad.callee, bad.loc(), g.name), bad.loc())
+    if n == 0:
+        raise AnalysisBroken('%s: no constructor with a fallible initialiser found' % rid)
